@@ -16,15 +16,19 @@ _IMPORT = re.compile(r'^\s*(?:from\s+([\w.]+)\s+import|import\s+([\w.]+))', re.M
 _OK_MODULES = {'typing', '__future__', 'builtins', 'typing_extensions'}
 
 
-def _ok(src):
+def _ok(src, extra=()):
   for m in _IMPORT.finditer(src):
     mod = (m.group(1) or m.group(2)).split('.')[0]
-    if mod not in _OK_MODULES:
+    if mod not in _OK_MODULES and mod not in extra:
       return False
   return True
 
 
-def load(repo, limit=None, stride=1):
+# modules whose stubs are bundled with pytype (usable with Options(typeshed=False))
+BUNDLED = {'enum', 'collections', 'attr', 'attrs', 'mypy_extensions'}
+
+
+def load(repo, limit=None, stride=1, extra_modules=()):
   out = []
   seen = set()
   for path in sorted(glob.glob(os.path.join(repo, 'pytype', 'tests', 'test_*.py'))):
@@ -41,7 +45,7 @@ def load(repo, limit=None, stride=1):
       if not args or not isinstance(args[0], ast.Constant) or not isinstance(args[0].value, str):
         continue
       src = textwrap.dedent(args[0].value).lstrip('\n')
-      if not src.strip() or src in seen or not _ok(src):
+      if not src.strip() or src in seen or not _ok(src, extra_modules):
         continue
       try:
         compile(src, '<corpus>', 'exec')
